@@ -66,7 +66,7 @@ impl OutputColors {
 			SpanKind::String => self.get_style("string").to_ansi(),
 			SpanKind::Ident => self.get_style("identifier").to_ansi(),
 			SpanKind::Keyword => self.get_style("keyword").to_ansi(),
-			SpanKind::BuiltInFunction => self.get_style("built_in_function").to_ansi(),
+			SpanKind::BuiltInFunction => self.get_style("built-in-function").to_ansi(),
 			SpanKind::Date => self.get_style("date").to_ansi(),
 			_ => self.get_style("other").to_ansi(),
 		}
